@@ -235,14 +235,18 @@ class PipeWorld:
         # a hung/desynchronised connection is abandoned (closing a transport another thread blocks on would block)
         self._open()
 
-    def close(self) -> None:
+    def close(self, join_timeout: float = 1.0) -> bool:
+        """Close the client side; returns whether the serve loop ended (EOF) within join_timeout."""
         try:
             self.conn.__exit__(None, None, None)
-            self.th.join(1.0)
+            self.th.join(join_timeout)
+            if self.th.is_alive():
+                return False
             self.ct.close()
             self.st.close()
         except Exception:  # noqa: BLE001
             pass
+        return not self.th.is_alive()
 
 
 class RecordingClient:
